@@ -36,7 +36,7 @@ def run(ctx):
         'positive semi-definiteness of the shipped matrices is C14\'s certificate']
     rng = ctx.rng
     libs = list(thermogen.SHIPPED)
-    syn = [thermogen.rnd_library(rng, os.path.join(vlib.WORK, 'c20_syn_%d' % i), with_uq=True)['path']
+    syn = [thermogen.rnd_library(rng, os.path.join(vlib.WORK, 'c20_syn_%d' % i), with_uq=True, uq_kind=('nonsym', 'int', 'float', 'nonsym')[i % 4])['path']
            for i in range(ctx.n(4, 30))]
     infos = vlib.run_impl_sharded('thermo', [{'op': 'libinfo', 'lib': s} for s in libs + syn], timeout=900)
     jobs = []
@@ -78,7 +78,7 @@ def run(ctx):
         # The in-basis descriptor comes first in every other one, so that the failure happens after part of the work is done.
         first = len(jobs) - 1
         for k, d in enumerate(outside[:ctx.n(3, 20)]):
-            mp = [[rng.choice(usable), rng.choice([1, 2, 3])], [rng.choice(usable), 1], [d, rng.choice([2, 1, 0, 0.0, -1])]]
+            mp = [[rng.choice(usable), rng.choice([1, 2, 3])], [rng.choice(usable), 1], [d, (0, 2, 0.0, 1, -1)[k % 5]]]
             if k % 2:
                 rng.shuffle(mp)
             j_ = {'op': 'estimate', 'lib': spec, 'mapping': mp, 'Ts': Ts, 'props': ('cp', 'h', 's'), 'se': True, 'kind': 'out-of-basis'}
